@@ -153,7 +153,7 @@ def rl_cases(draw):
     # losses: the real loss, or a script that can hit special values (an exact 0.0 = perfect fit, ties, increases)
     losses = draw(st.one_of(st.none(), st.lists(st.sampled_from([0.0, 0.0, 1.0, 0.5, 2.0, 0.25]), min_size=2, max_size=8)))
     return {"cfg": cfg, "agent": agent, "script": script, "sessions": draw(st.lists(st.integers(1, 4), min_size=1, max_size=3)),
-            "losses": losses, "slow_policy_call": draw(st.sampled_from([None] * 30 + [1, 2, 3]))}
+            "losses": losses, "slow_pending_decision": draw(st.integers(0, 11)) == 0}
 
 
 def check_rl(ctx: Ctx, case):
@@ -176,12 +176,13 @@ def check_rl(ctx: Ctx, case):
             self.k = 0
 
         def policy(self, state):
-            if case.get("slow_policy_call") == self.k:
-                import time
-                time.sleep(1.3)   # a slow decision: the session may be over before it is made
+            slow = case.get("slow_pending_decision") and len(case["sessions"]) >= 2 and self.k == max(0, case["sessions"][0] - 1)
             a = case["script"][self.k % len(case["script"])] % n_act
             self.k += 1
             chosen.append(a)
+            if slow:
+                import time
+                time.sleep(1.3)   # the decision still pending when the first session ends is a slow one to deliver
             return a
 
         def learn(self, state, action, reward, next_state):
@@ -203,7 +204,8 @@ def check_rl(ctx: Ctx, case):
         from harness.stubs import ScriptedLoss
         cal = calib.build(cfg, scheduler=sched, loss=ScriptedLoss(case["losses"]) if case.get("losses") else None)
         with watchdog(60, "rl calibrate"):
-            for nb in case["sessions"]:
+            for si, nb in enumerate(case["sessions"]):
+                chosen.append(("session", si))
                 cal.calibrate(nb)
         if len(lg.log) != total:
             ctx.fail("C09/batch-count", f"{len(lg.log)} batches ran, {total} requested", sub, case)
@@ -231,11 +233,26 @@ def check_rl(ctx: Ctx, case):
                          sub, case)
                 return
             used.append(pos[0])
-        it = iter(list(chosen))
-        if not all(any(u == c for c in it) for u in used):
-            ctx.fail("C09/rl-not-agent-choice", f"samplers used after the bootstrap {used} are not, in order, choices of the agent "
-                     f"{chosen}", sub, case)
-            return
+        # session by session: the batches of a session are run by the agent's choices of that session, in order and without
+        # skipping (a choice still pending when the session ends is simply dropped; nothing carries over to the next session)
+        per_session, cur = [], None
+        for c in list(chosen):
+            if isinstance(c, tuple):
+                cur = []
+                per_session.append(cur)
+            elif cur is not None:
+                cur.append(c)
+        k0 = 0
+        for si, nb in enumerate(case["sessions"]):
+            n_agent = nb - (1 if si == 0 else 0)          # the very first batch is the bootstrap
+            used_s = used[k0:k0 + n_agent]
+            k0 += n_agent
+            ch = per_session[si] if si < len(per_session) else []
+            if used_s != ch[:len(used_s)]:
+                ctx.fail("C09/rl-not-agent-choice", f"session {si}: batches were run by samplers {used_s}, the agent's choices in "
+                         f"that session were {ch} (all sessions: used {used}, choices {[c for c in chosen if not isinstance(c, tuple)]})",
+                         sub, case)
+                return
         expm = [cal.samplers_id_table[type(s).__name__] for s, r in lg.log for _ in range(r)]
         if cal.method_samp.tolist() != expm:
             ctx.fail("C09/labels", "method labels do not name the samplers that ran", sub, case)
@@ -288,4 +305,4 @@ SUBCHECKS = {"round_robin": check_rr, "rl": check_rl, "constructor": check_ctor}
 def run(ctx: Ctx):
     drive(ctx, "constructor", ctor_cases(), check_ctor, ctx.n(400, 2000))
     drive(ctx, "round_robin", rr_cases(), check_rr, ctx.n(1600, 12000))
-    drive(ctx, "rl", rl_cases(), check_rl, ctx.n(1200, 10000))
+    drive(ctx, "rl", rl_cases(), check_rl, ctx.n(1200, 10000), flaky_is_violation=True)
